@@ -472,6 +472,77 @@ theorem filter_ambiguity_identity (proj : α → ER) (srcLen : Nat) (fs : Filter
   intro x hx
   simp [hs x hx]
 
+/-! ### `_extract_separate_units` and `expand_half_suffix` as span statements (feed C01 / C12) -/
+
+/-- C05(l) **separate units**: `_extract_separate_units` keeps the loop's results in front, unchanged and in order, and
+appends extract results of non-empty separate-regex matches, in match order, each sharing no character position with
+any result of the number loop that lies inside the string. (The code marks `[0, len)` instead of the match's own span
+after accepting it; the statement does not depend on those marks.) -/
+theorem separate_units_appended_disjoint (srcLen : Nat) (ambTerm : Str) (nonUnit : List (Nat × Nat)) (res : List ER)
+    (sep : List (Nat × Str)) :
+    ∃ added, separateUnits srcLen ambTerm nonUnit res sep = res ++ added ∧
+      added.Sublist (sep.map sepER) ∧
+      ∀ u ∈ added, u.text ≠ [] ∧ u.data = none ∧ ∀ r ∈ res, r.start + r.len ≤ srcLen → Disj u r :=
+  separateUnits_spec srcLen ambTerm nonUnit res sep
+
+/-- … and pairwise disjoint among themselves when the separate-regex matches are (left to right, non-overlapping — what
+`finditer` returns). -/
+theorem separate_units_pairwise_disjoint (srcLen : Nat) (ambTerm : Str) (nonUnit : List (Nat × Nat)) (res : List ER)
+    (sep : List (Nat × Str)) (hs : sep.Pairwise fun a b => a.1 + a.2.length ≤ b.1) :
+    ∃ added, separateUnits srcLen ambTerm nonUnit res sep = res ++ added ∧
+      added.Pairwise fun a b => a.start + a.len ≤ b.start := by
+  obtain ⟨added, e, sl, _⟩ := separateUnits_spec srcLen ambTerm nonUnit res sep
+  refine ⟨added, e, List.Pairwise.sublist sl ?_⟩
+  rw [List.pairwise_map]
+  exact hs.imp (by intro a b h; simpa [sepER] using h)
+
+/-- **Half expansion** changes a result in one way only: the text and length of the one half-number whose start equals the
+result's end are appended; start, data, order and number of results stay. -/
+theorem expand_half_shape (res : List ER) (nums : List Num) (half : List Bool) :
+    (expandHalf res nums half).length = res.length ∧
+    ∀ r' ∈ expandHalf res nums half, ∃ r ∈ res, r' = r ∨
+      ∃ mr ∈ nums, mr.start = r.start + r.len ∧ r' = { r with len := r.len + mr.len, text := r.text ++ mr.text } := by
+  refine ⟨?_, expandHalf_cases res nums half⟩
+  unfold expandHalf
+  simp only []
+  split <;> simp
+
+/- Natural statement "after `expand_half_suffix` every result's text is still source[start:start+length]" is FALSE of
+   the code: the numbers it compares with have had their `start` overwritten by the loop (relative start inside the
+   result that consumed them). -/
+
+/-- … it holds when every number that can be appended still has its absolute position (`NumOK`: inside the string, text =
+slice) — true of the numbers the loop did not consume, and of all numbers in the variant
+findings/nwu/half-stale-start.diff (`Inputs.pristineHalf`) — … -/
+theorem expand_half_text_is_slice_partial (src : Str) (res : List ER) (nums : List Num) (half : List Bool)
+    (hr : ∀ r ∈ res, r.start + r.len ≤ src.length ∧ r.text = slice src r.start (r.start + r.len))
+    (hn : ∀ n ∈ nums, NumOK src n) :
+    ∀ r' ∈ expandHalf res nums half, r'.start + r'.len ≤ src.length ∧ r'.text = slice src r'.start (r'.start + r'.len) := by
+  intro r' hr'
+  obtain ⟨r, hrm, h | ⟨mr, hmr, hs, h⟩⟩ := expandHalf_cases res nums half r' hr'
+  · rw [h]; exact hr r hrm
+  · have hN := hn mr hmr
+    have hR := hr r hrm
+    rw [h]
+    refine ⟨by simp only; have := hN.1; omega, ?_⟩
+    simp only
+    rw [hR.2, hN.2, hs, ← Nat.add_assoc, slice_append_slice] <;> omega
+
+/-- … and fails in general. Witness = the zh-cn currency input `5元,￥ 半` (prefix match `￥`@3, suffix match `元`@1, numbers
+`5`@0 and `半`@5 with the half flag): `半` is consumed by `￥ 半`, its start becomes the relative start 2 — where `5元`
+ends — and `5元` is turned into `5元半` although the source there reads `5元,` (observed: the recogniser answers 5.5 yuan
+for `5元,`). -/
+theorem nwu_expand_half_stale_witness :
+    let c : Cfg := ⟨fun ch => ch == 32, [], 10, true, false⟩
+    let src : Str := [53, 20803, 44, 65509, 32, 21322]
+    let st := coreLoop c src [⟨3, 1, [65509]⟩] [⟨1, 1, [20803]⟩] [] [⟨0, 1, [53]⟩, ⟨5, 1, [21322]⟩]
+    st.nums = [⟨0, 1, [53]⟩, ⟨2, 1, [21322]⟩] ∧
+    expandHalf st.result st.nums [false, true] =
+      [⟨0, 3, [53, 20803, 21322], some ⟨0, 1, [53]⟩⟩, ⟨3, 3, [65509, 32, 21322], some ⟨2, 1, [21322]⟩⟩] ∧
+    slice src 0 3 = [53, 20803, 44] ∧
+    expandHalf st.result [⟨0, 1, [53]⟩, ⟨5, 1, [21322]⟩] [false, true] = st.result := by
+  decide
+
 /-! ### `BaseMergedUnitExtractor` (currency) -/
 
 /-- every result of `BaseMergedUnitExtractor.extract` (currency) is the slice of the source it claims, provided the unit
